@@ -820,9 +820,34 @@ def detect_variant(h, drv):
     return fixed_sz, shiftfix
 
 
+def generated_variant():
+    """the variant of the model that the SOURCE TEXT selects: what translator/gen_symm.py read off Symmetrizer.cpp / Symmetrizer.h /
+    FieldOperator.cpp into coq/gen/Gen_Symm*.v (the snapshot where a fragment was untranslatable), i.e. the configuration the
+    theorems of props/Properties_C07_source.v are stated about, expressed in the two switches the probes establish"""
+    import os
+    import sys
+    sys.path.insert(0, os.path.join(pv.ROOT, "translator"))
+    try:
+        import gen_symm
+        f = gen_symm.python_facts(os.path.join(pv.COQ, "gen"))
+        grid = [(u, n) for n in range(0, 9) for u in range(0, n + 1)]
+        g = f["sz_guard"]
+        if all(bool(g(u, n)) == (2 * u == n) for (u, n) in grid):
+            fz = 1                          # S_z offered iff as many up as down indices: the repaired compute(bool)
+        elif all(bool(g(u, n)) for (u, n) in grid):
+            fz = 0                          # S_z constructed whenever all labels are up/down: the unrepaired one
+        else:
+            fz = "neither (guard differs from both modelled variants, first at (#up, IndexSize) = %s)" % (
+                [(u, n) for (u, n) in grid if bool(g(u, n)) != (2 * u == n)][0],)
+        return {"fixed_sz": fz, "shiftfix": 1 if "TestUniformShift" in f["tests"] else 0, "tests": f["tests"],
+                "hash_is_ordered": f["hash_is_ordered"], "prepare_visits_all_blocks": f["prepare_visits_all_blocks"]}
+    except Exception as ex:
+        return {"error": repr(ex)}
+
+
 def run(chk):
     quick = chk.tier == "quick"
-    chk.prove(["extract/Extract_C07.vo"])
+    chk.prove(["extract/Extract_C07.vo"], extra_props=["Properties_C07_source.v"])
     chk.trusted += ["extraction: ExtrOcamlBasic, ExtrOcamlNatInt (nat -> OCaml int; indices < 10, state labels < 2^8); Z and Q stay inductive",
                     "ocaml/driver_c07.ml, harness/h_c07.cpp + ed_common.h (scenario interpreter), Python comparison with exact fractions",
                     "the Hamiltonian polynomial and the candidate polynomials are taken from the harness (HPOLY / CAND records); that HPOLY is the "
@@ -835,6 +860,18 @@ def run(chk):
     drv = pv.build_driver("driver_c07", ["C07_model"])
     fixed_sz, shiftfix = detect_variant(h, drv)
     chk.extra["code_variant"] = {"fixed_sz": fixed_sz, "shiftfix": shiftfix}
+    # cross-check: the variant the probes establish must be the one the translator reads off the source text (the configuration
+    # the theorems of Properties_C07_source.v are about); a disagreement means the proofs talk about another code than the one run
+    gv = generated_variant()
+    chk.extra["generated_variant"] = gv
+    if gv.get("error"):
+        chk.tie_broken("generated-vs-probed-variant", "the generated configuration (coq/gen/Gen_Symm*.v) could not be read: " + gv["error"])
+    elif (gv["fixed_sz"], gv["shiftfix"]) != (fixed_sz, shiftfix):
+        chk.tie_broken("generated-vs-probed-variant",
+                       "probe scenarios establish fixed_sz=%d shiftfix=%d; the source text (translator/gen_symm.py -> coq/gen/Gen_Symm.v, Gen_SymmDefault.v; "
+                       "translator status %s) selects fixed_sz=%s shiftfix=%s" % (
+                           fixed_sz, shiftfix, {k: v for k, v in (chk.extra.get("translator") or {}).items() if k.startswith("Gen_Symm")},
+                           gv["fixed_sz"], gv["shiftfix"]))
 
     probes = [probe_sz(), probe_sz2(), probe_mixed(), probe_shift(), probe_shift_hubbard()]
     fixed = fixed_scenarios()
